@@ -19,6 +19,7 @@ RULE = (
     'fresh twin, prediction compared with a fresh model after every step; distinct = (family, sequence); non-trivial iff the sequence has a '
     'prediction before a state-changing operation and the prediction really changed (> 1e-6) somewhere along the history'
     '; pass 5: directed histories with a prediction / training step under other jitter settings, a training step with part of the model frozen, and a rough prediction (no Cholesky, eval_cg_tolerance 0.3, rank-3 LOVE) between accurate ones'
+    '; pass 6: exact Kronecker multitask family; training steps whose mode switches go through the objective object; partial state dicts (strict=False)'
 )
 REQUIRED = ["step_matches_fresh", "final_matches_fresh", "op_output_matches_fresh", "monitor:cache_add", "monitor:clear_cache"]
 ASSUMPTIONS = [
